@@ -365,9 +365,37 @@ theorem inv_op (s s' : CSys) (id : Nat) (o : Op) (r : Res) (h : s.step (.op id o
     cases o with
     | get k =>
       simp only at h
-      cases hl : c.lru.lookup k with
-      | some e => simp only [hl] at h; cases h; exact hi
-      | none =>
+      by_cases hfin : c.finished = true
+      · -- finished: the read is handed to the wrapped transaction, nothing is cached
+        simp only [hfin, if_true] at h
+        cases hin : s.inner.step (.op id (.get k)) with
+        | none => simp [hin] at h
+        | some ir =>
+          obtain ⟨i', r'⟩ := ir
+          obtain ⟨t, ht, rfl, rfl⟩ := inner_op _ _ _ _ _ hin
+          simp only [hin] at h; cases h
+          rcases get_facts t k with ⟨hf, hres, hsame⟩ | ⟨hf, hres, hroot, hf', e, hops, hnw⟩
+          · show Inv { s with inner := { s.inner with txns := setTxn s.inner.txns id (t.get k).1 } }
+            rw [hsame]; exact inv_same_txn s id t hi ht
+          · have hcs : ({ s with inner := { s.inner with txns := setTxn s.inner.txns id (t.apply (.get k)).1 } } : CSys).ctxns.lookup id = some c := hc
+            apply inv_frame s _ id _ c hi hcs (lookup_setTxn_same ..)
+              (fun id' _ => rfl) (fun id' h' => lookup_setTxn_other _ _ _ _ h')
+            · exact hi.1
+            · intro _ k' e' hl'
+              show e' = sget (t.get k).1.root k'
+              rw [hroot]
+              exact tcOld id c t hc ht hf k' e' hl'
+            · intro o' ho' hw
+              have ho'' : o' ∈ (t.get k).1.operations := ho'
+              simp only [hops, List.mem_append, List.mem_singleton] at ho''
+              rcases ho'' with ho'' | rfl
+              · exact wcOld id c t hc ht o' ho'' hw
+              · rw [hnw] at hw; cases hw
+      · have hfin' : c.finished = false := by simpa using hfin
+        simp only [hfin', Bool.false_eq_true, if_false] at h
+        cases hl : c.lru.lookup k with
+        | some e => simp only [hl] at h; cases h; exact hi
+        | none =>
         simp only [hl] at h
         cases hin : s.inner.step (.op id (.get k)) with
         | none => simp [hin] at h
@@ -499,10 +527,8 @@ theorem inv_commit (s s' : CSys) (id : Nat) (r : Res) (h : s.step (.commit id) =
         intro o ho hw; rw [hops] at ho; exact wcOld id c t hc ht o ho hw
       by_cases hr : (t.commit s.inner.parent).2.2 = .ok
       · rw [hr] at h; simp only at h; cases h
-        have hcs : ({ inner := { parent := (t.commit s.inner.parent).1, txns := setTxn s.inner.txns id (t.commit s.inner.parent).2.1 },
-                      lru := c.modified.foldl lruRemove s.lru, ctxns := s.ctxns } : CSys).ctxns.lookup id = some c := hc
-        apply inv_frame s _ id _ c hi hcs (lookup_setTxn_same ..)
-          (fun id' _ => rfl) (fun id' h' => lookup_setTxn_other _ _ _ _ h')
+        apply inv_frame s _ id _ { c with finished := true } hi (lookup_setC_same ..) (lookup_setTxn_same ..)
+          (fun id' h' => lookup_setC_other _ _ _ _ h') (fun id' h' => lookup_setTxn_other _ _ _ _ h')
         · intro k e hl
           obtain ⟨hnm, hl0⟩ := lookup_foldl_remove _ _ _ _ hl
           have := pcOld k e hl0
@@ -517,12 +543,12 @@ theorem inv_commit (s s' : CSys) (id : Nat) (r : Res) (h : s.step (.commit id) =
             exact hnm (hk ▸ wcOld id c t hc ht o ho hw)
         · intro hf; exact absurd hf (by intro hf; exact hfin hf)
         · exact hwc
-      · have hs' : s' = { s with inner := { parent := (t.commit s.inner.parent).1, txns := setTxn s.inner.txns id (t.commit s.inner.parent).2.1 } } := by
+      · have hs' : s' = { s with inner := { parent := (t.commit s.inner.parent).1, txns := setTxn s.inner.txns id (t.commit s.inner.parent).2.1 },
+                                  ctxns := setC s.ctxns id { c with finished := true } } := by
           cases hrr : (t.commit s.inner.parent).2.2 <;> simp only [hrr] at h hr <;> first | (cases h; rfl) | exact absurd rfl hr | exact absurd trivial hr | contradiction
         rw [hs']
-        have hcs : ({ s with inner := { parent := (t.commit s.inner.parent).1, txns := setTxn s.inner.txns id (t.commit s.inner.parent).2.1 } } : CSys).ctxns.lookup id = some c := hc
-        apply inv_frame s _ id _ c hi hcs (lookup_setTxn_same ..)
-          (fun id' _ => rfl) (fun id' h' => lookup_setTxn_other _ _ _ _ h')
+        apply inv_frame s _ id _ { c with finished := true } hi (lookup_setC_same ..) (lookup_setTxn_same ..)
+          (fun id' h' => lookup_setC_other _ _ _ _ h') (fun id' h' => lookup_setTxn_other _ _ _ _ h')
         · intro k e hl
           show e = sget (t.commit s.inner.parent).1 k
           rw [hnok hr]; exact pcOld k e hl
@@ -541,30 +567,24 @@ theorem rollback_facts (t : Txn) :
 theorem inv_rollback (s s' : CSys) (id : Nat) (r : Res) (h : s.step (.rollback id) = some (s', r))
     (hi : Inv s) : Inv s' := by
   simp only [CSys.step] at h
-  cases hin : s.inner.step (.rollback id) with
-  | none => simp [hin] at h
-  | some ir =>
-    obtain ⟨i', r'⟩ := ir
-    obtain ⟨t, ht, rfl, rfl⟩ := inner_rollback _ _ _ _ hin
-    simp only [hin] at h; cases h
-    obtain ⟨hops, hroot, hfin⟩ := rollback_facts t
-    obtain ⟨pc, tc, wc⟩ := hi
-    refine ⟨pc, ?_, ?_⟩
-    · intro id' c t' hc ht' hf k e hl
-      by_cases hid : id' = id
-      · subst hid
-        simp only [lookup_setTxn_same] at ht'; cases ht'
-        exact absurd hf (by intro hf; exact hfin hf)
-      · simp only [lookup_setTxn_other _ _ _ _ hid] at ht'
-        exact tc id' c t' hc ht' hf k e hl
-    · intro id' c t' hc ht' o ho hw
-      by_cases hid : id' = id
-      · subst hid
-        simp only [lookup_setTxn_same] at ht'; cases ht'
+  cases hc : s.ctxns.lookup id with
+  | none => simp [hc] at h
+  | some c =>
+    simp only [hc] at h
+    cases hin : s.inner.step (.rollback id) with
+    | none => simp [hin] at h
+    | some ir =>
+      obtain ⟨i', r'⟩ := ir
+      obtain ⟨t, ht, rfl, rfl⟩ := inner_rollback _ _ _ _ hin
+      simp only [hin] at h; cases h
+      obtain ⟨hops, hroot, hfin⟩ := rollback_facts t
+      apply inv_frame s _ id _ { c with finished := true } hi (lookup_setC_same ..) (lookup_setTxn_same ..)
+        (fun id' h' => lookup_setC_other _ _ _ _ h') (fun id' h' => lookup_setTxn_other _ _ _ _ h')
+      · exact hi.1
+      · intro hf; exact absurd hf (by intro hf; exact hfin hf)
+      · intro o ho hw
         rw [hops] at ho
-        exact wc id' c t hc ht o ho hw
-      · simp only [lookup_setTxn_other _ _ _ _ hid] at ht'
-        exact wc id' c t' hc ht' o ho hw
+        exact hi.2.2 id c t hc ht o ho hw
 
 theorem inv_plain (s s' : CSys) (o : Op) (r : Res) (h : s.step (.plain o) = some (s', r))
     (hi : Inv s) : Inv s' := by
@@ -802,12 +822,13 @@ theorem winInv_tick (w : Win) (h : WinInv w) : WinInv w.tick := by
       have hwc : ∀ o ∈ (t.commit w.sys.inner.parent).2.1.operations, isWriteOp o = true → o.argKey ∈ c.modified := by
         intro o ho hw; rw [hops] at ho; exact wcOld w.id c t hc ht o ho hw
       -- the two invariants that ignore the parent cache, for the state right after the underlying commit
-      have tw' : TW { w.sys with inner := i' } := by
-        have hcs : ({ w.sys with inner := i' } : CSys).ctxns.lookup w.id = some c := hc
-        have hts : ({ w.sys with inner := i' } : CSys).inner.txns.lookup w.id = some (t.commit w.sys.inner.parent).2.1 := by
+      have tw' : TW { w.sys with inner := i', ctxns := setC w.sys.ctxns w.id { c with finished := true } } := by
+        have hts : ({ w.sys with inner := i', ctxns := setC w.sys.ctxns w.id { c with finished := true } } : CSys).inner.txns.lookup w.id
+            = some (t.commit w.sys.inner.parent).2.1 := by
           show i'.txns.lookup w.id = _
           rw [htx]; exact lookup_setTxn_same ..
-        refine tw_frame w.sys _ w.id _ c tw hcs hts (fun id' _ => rfl) ?_
+        refine tw_frame w.sys _ w.id _ { c with finished := true } tw (lookup_setC_same ..) hts
+          (fun id' h' => lookup_setC_other _ _ _ _ h') ?_
           (fun hf => absurd hf (by intro hf; exact hfin hf)) hwc
         intro id' h'
         show i'.txns.lookup id' = _
@@ -831,18 +852,13 @@ theorem winInv_tick (w : Win) (h : WinInv w) : WinInv w.tick := by
             apply replay_other _ _ _ _ hp'
             intro o ho hw hk
             exact hm (hk ▸ wcOld w.id c t hc ht o ho hw)
-      · have hgoal : WinInv { w with sys := { w.sys with inner := i' }, phase := .done, res := r } := by
+      · have hgoal : WinInv { w with sys := { w.sys with inner := i', ctxns := setC w.sys.ctxns w.id { c with finished := true } }, phase := .done, res := r } := by
           refine ⟨tw', ?_⟩
           simp only
           intro k e hl
           show e = sget i'.parent k
           rw [hpar, hnok (by rw [← hr']; exact hr)]; exact pc k e hl
         cases r <;> first | exact hgoal | exact absurd rfl hr
-
-end Obao.CacheTxn
-
-namespace Obao.CacheTxn
-open Obao.SerialTxn Obao.InmemTxn
 
 theorem winInv_step (w : Win) (st : WStep) (h : WinInv w) : WinInv (w.step st) := by
   cases st with
@@ -933,5 +949,216 @@ theorem window_no_readers (s : CSys) (id : Nat) (w : Win) (h : Win.start s id = 
       simp only [hc, ht] at h; cases h
       simp only [CSys.step, hc, Win.finish, Win.tick, Sys.step, ht]
       cases hr : (t.commit s.inner.parent).2.2 <;> simp [Win.drain]
+
+end Obao.CacheTxn
+
+namespace Obao.CacheTxn
+open Obao.SerialTxn Obao.InmemTxn
+
+/-! ### a finished wrapped transaction is known to be finished by the cache layer (repair of F22) -/
+
+/-- frame rule for `FlagInv` -/
+theorem flag_frame (s s' : CSys) (id : Nat) (t' : Txn) (c' : CTxn) (hi : FlagInv s)
+    (hc' : s'.ctxns.lookup id = some c') (ht' : s'.inner.txns.lookup id = some t')
+    (hco : ∀ id', id' ≠ id → s'.ctxns.lookup id' = s.ctxns.lookup id')
+    (hto : ∀ id', id' ≠ id → s'.inner.txns.lookup id' = s.inner.txns.lookup id')
+    (hfl : t'.finished = true → c'.finished = true) : FlagInv s' := by
+  intro id' c t hc ht hf
+  by_cases hid : id' = id
+  · subst hid
+    rw [hc'] at hc; rw [ht'] at ht; cases hc; cases ht
+    exact hfl hf
+  · rw [hco id' hid] at hc; rw [hto id' hid] at ht
+    exact hi id' c t hc ht hf
+
+theorem flag_congr (s s' : CSys) (h : FlagInv s) (hc : s'.ctxns = s.ctxns) (ht : s'.inner.txns = s.inner.txns) :
+    FlagInv s' := by
+  intro id' c t hc' ht'; rw [hc] at hc'; rw [ht] at ht'; exact h id' c t hc' ht'
+
+theorem flag_step (s s' : CSys) (e : Event) (r : Res) (h : s.step e = some (s', r)) (hi : FlagInv s) : FlagInv s' := by
+  cases e with
+  | begin id w =>
+    simp only [CSys.step] at h
+    split at h
+    · cases h
+    · rename_i i' r' hin
+      cases h
+      obtain ⟨_, _, rfl⟩ := inner_begin _ _ _ _ _ hin
+      apply flag_frame s _ id _ _ hi (lookup_setC_same ..) (lookup_setTxn_same ..)
+        (fun id' h' => lookup_setC_other _ _ _ _ h') (fun id' h' => lookup_setTxn_other _ _ _ _ h')
+      intro hf; cases w <;> simp [beginTx, beginReadOnlyTx] at hf
+  | op id o =>
+    simp only [CSys.step] at h
+    cases hc : s.ctxns.lookup id with
+    | none => simp [hc] at h
+    | some c =>
+      simp only [hc] at h
+      -- whatever the branch: the wrapped transaction becomes `(t.apply o).1` or stays, the flag is not touched
+      have key : ∀ (i' : Sys) (r' : Res) (c' : CTxn), s.inner.step (.op id o) = some (i', r') → c'.finished = c.finished →
+          FlagInv { s with inner := i', ctxns := setC s.ctxns id c' } := by
+        intro i' r' c' hin hcf
+        obtain ⟨t, ht, rfl, rfl⟩ := inner_op _ _ _ _ _ hin
+        apply flag_frame s _ id _ c' hi (lookup_setC_same ..) (lookup_setTxn_same ..)
+          (fun id' h' => lookup_setC_other _ _ _ _ h') (fun id' h' => lookup_setTxn_other _ _ _ _ h')
+        intro hf
+        rw [(apply_flags t o).2] at hf
+        rw [hcf]; exact hi id c t hc ht hf
+      have key0 : ∀ (i' : Sys) (r' : Res), s.inner.step (.op id o) = some (i', r') → FlagInv { s with inner := i' } := by
+        intro i' r' hin
+        obtain ⟨t, ht, rfl, rfl⟩ := inner_op _ _ _ _ _ hin
+        have hcs : ({ s with inner := { s.inner with txns := setTxn s.inner.txns id (t.apply o).1 } } : CSys).ctxns.lookup id = some c := hc
+        apply flag_frame s _ id _ c hi hcs (lookup_setTxn_same ..)
+          (fun id' _ => rfl) (fun id' h' => lookup_setTxn_other _ _ _ _ h')
+        intro hf
+        rw [(apply_flags t o).2] at hf
+        exact hi id c t hc ht hf
+      cases o with
+      | get k =>
+        simp only at h
+        by_cases hfin : c.finished = true
+        · simp only [hfin, if_true] at h
+          cases hin : s.inner.step (.op id (.get k)) with
+          | none => simp [hin] at h
+          | some ir => obtain ⟨i', r'⟩ := ir; simp only [hin] at h; cases h; exact key0 i' _ hin
+        · have hfin' : c.finished = false := by simpa using hfin
+          simp only [hfin', Bool.false_eq_true, if_false] at h
+          cases hl : c.lru.lookup k with
+          | some e => simp only [hl] at h; cases h; exact hi
+          | none =>
+            simp only [hl] at h
+            cases hin : s.inner.step (.op id (.get k)) with
+            | none => simp [hin] at h
+            | some ir =>
+              obtain ⟨i', r'⟩ := ir
+              simp only [hin] at h
+              cases r' <;> simp only at h <;> cases h <;>
+                first | exact key0 i' _ hin | exact key i' _ _ hin rfl | exact key i' _ _ hin (by simp [hfin'])
+      | put k v =>
+        simp only at h
+        cases hin : s.inner.step (.op id (.put k v)) with
+        | none => simp [hin] at h
+        | some ir =>
+          obtain ⟨i', r'⟩ := ir
+          simp only [hin] at h
+          cases r' <;> simp only at h <;> cases h <;> first | exact key0 i' _ hin | exact key i' _ _ hin rfl
+      | del k =>
+        simp only at h
+        cases hin : s.inner.step (.op id (.del k)) with
+        | none => simp [hin] at h
+        | some ir =>
+          obtain ⟨i', r'⟩ := ir
+          simp only [hin] at h
+          cases r' <;> simp only at h <;> cases h <;> first | exact key0 i' _ hin | exact key i' _ _ hin rfl
+      | list p a l =>
+        simp only at h
+        cases hin : s.inner.step (.op id (.list p a l)) with
+        | none => simp [hin] at h
+        | some ir => obtain ⟨i', r'⟩ := ir; simp only [hin] at h; cases h; exact key0 i' _ hin
+  | commit id =>
+    simp only [CSys.step] at h
+    cases hc : s.ctxns.lookup id with
+    | none => simp [hc] at h
+    | some c =>
+      simp only [hc] at h
+      cases hin : s.inner.step (.commit id) with
+      | none => simp [hin] at h
+      | some ir =>
+        obtain ⟨i', r'⟩ := ir
+        obtain ⟨t, ht, rfl, rfl⟩ := inner_commit _ _ _ _ hin
+        simp only [hin] at h
+        have key : ∀ lru', FlagInv { inner := { parent := (t.commit s.inner.parent).1, txns := setTxn s.inner.txns id (t.commit s.inner.parent).2.1 }, lru := lru', ctxns := setC s.ctxns id { c with finished := true } } := by
+          intro lru'
+          apply flag_frame s _ id _ { c with finished := true } hi (lookup_setC_same ..) (lookup_setTxn_same ..)
+            (fun id' h' => lookup_setC_other _ _ _ _ h') (fun id' h' => lookup_setTxn_other _ _ _ _ h')
+          intro _; rfl
+        cases hrr : (t.commit s.inner.parent).2.2 <;> simp only [hrr] at h <;> cases h <;> exact key _
+  | rollback id =>
+    simp only [CSys.step] at h
+    cases hc : s.ctxns.lookup id with
+    | none => simp [hc] at h
+    | some c =>
+      simp only [hc] at h
+      cases hin : s.inner.step (.rollback id) with
+      | none => simp [hin] at h
+      | some ir =>
+        obtain ⟨i', r'⟩ := ir
+        obtain ⟨t, ht, rfl, rfl⟩ := inner_rollback _ _ _ _ hin
+        simp only [hin] at h; cases h
+        apply flag_frame s _ id _ { c with finished := true } hi (lookup_setC_same ..) (lookup_setTxn_same ..)
+          (fun id' h' => lookup_setC_other _ _ _ _ h') (fun id' h' => lookup_setTxn_other _ _ _ _ h')
+        intro _; rfl
+  | plain o =>
+    cases o with
+    | get k =>
+      obtain ⟨s1, r1, hs, hc, hin, _⟩ := reader_facts s k
+      rw [hs] at h; cases h
+      exact flag_congr s s' hi hc (by rw [hin])
+    | put k v =>
+      simp only [CSys.step, Sys.step] at h; cases h
+      exact flag_congr s _ hi rfl rfl
+    | del k =>
+      simp only [CSys.step, Sys.step] at h; cases h
+      exact flag_congr s _ hi rfl rfl
+    | list p a l =>
+      simp only [CSys.step, Sys.step] at h; cases h
+      exact flag_congr s _ hi rfl rfl
+
+theorem flag_run (s : CSys) (es : List Event) (hi : FlagInv s) : FlagInv (s.run es) := by
+  induction es generalizing s with
+  | nil => exact hi
+  | cons e es ih =>
+    simp only [CSys.run]
+    cases hs : s.step e with
+    | none => exact ih s hi
+    | some sr => obtain ⟨s', r⟩ := sr; exact ih s' (flag_step s s' e r hs hi)
+
+theorem flag_init (s0 : Store) : FlagInv (CSys.init s0) := by
+  intro id c t h; simp [CSys.init] at h
+
+/-- behind the cache layer a finished transaction refuses every operation, `Get` included -/
+theorem finished_refused (s s' : CSys) (hi : FlagInv s) (id : Nat) (t : Txn) (ht : s.inner.txns.lookup id = some t)
+    (hf : t.finished = true) (o : Op) (r : Res) (h : s.step (.op id o) = some (s', r)) : r.isErr = true := by
+  simp only [CSys.step] at h
+  cases hc : s.ctxns.lookup id with
+  | none => simp [hc] at h
+  | some c =>
+    simp only [hc] at h
+    have hcf : c.finished = true := hi id c t hc ht hf
+    have inner_err : ∀ i' r', s.inner.step (.op id o) = some (i', r') → r'.isErr = true := by
+      intro i' r' hin
+      obtain ⟨t', ht', _, rfl⟩ := inner_op _ _ _ _ _ hin
+      rw [ht] at ht'; cases ht'
+      rcases apply_cases t o with ⟨he, _⟩ | ⟨e, _, _, _, _, _, _, hnf⟩
+      · exact he
+      · rw [hf] at hnf; cases hnf
+    cases o with
+    | get k =>
+      simp only [hcf, if_true] at h
+      cases hin : s.inner.step (.op id (.get k)) with
+      | none => simp [hin] at h
+      | some ir => obtain ⟨i', r'⟩ := ir; simp only [hin] at h; cases h; exact inner_err i' r hin
+    | put k v =>
+      simp only at h
+      cases hin : s.inner.step (.op id (.put k v)) with
+      | none => simp [hin] at h
+      | some ir =>
+        obtain ⟨i', r'⟩ := ir
+        have := inner_err i' r' hin
+        simp only [hin] at h
+        cases r' <;> simp only at h <;> cases h <;> first | exact this | simp [Res.isErr] at this
+    | del k =>
+      simp only at h
+      cases hin : s.inner.step (.op id (.del k)) with
+      | none => simp [hin] at h
+      | some ir =>
+        obtain ⟨i', r'⟩ := ir
+        have := inner_err i' r' hin
+        simp only [hin] at h
+        cases r' <;> simp only at h <;> cases h <;> first | exact this | simp [Res.isErr] at this
+    | list p a l =>
+      simp only at h
+      cases hin : s.inner.step (.op id (.list p a l)) with
+      | none => simp [hin] at h
+      | some ir => obtain ⟨i', r'⟩ := ir; simp only [hin] at h; cases h; exact inner_err i' r hin
 
 end Obao.CacheTxn
